@@ -205,6 +205,48 @@ func (r *FaultReader) fault() error {
 	return ErrInjected
 }
 
+// SeekFaultReader is a FaultReader with a working Seek method (the fault is
+// tied to the read position reached by reading, as for a file on a flaky disk).
+type SeekFaultReader struct {
+	FaultReader
+	Seeks int
+}
+
+// Seek implements io.Seeker.
+func (r *SeekFaultReader) Seek(offset int64, whence int) (int64, error) {
+	r.Seeks++
+	var abs int64
+	switch whence {
+	case io.SeekStart:
+		abs = offset
+	case io.SeekCurrent:
+		abs = int64(r.off) + offset
+	case io.SeekEnd:
+		abs = int64(len(r.Data)) + offset
+	}
+	if abs < 0 {
+		return 0, errors.New("negative position")
+	}
+	if abs > int64(len(r.Data)) {
+		abs = int64(len(r.Data))
+	}
+	r.off = int(abs)
+	return abs, nil
+}
+
+// temporaryError is a fault of the kind the net and os packages describe as
+// temporary (EAGAIN, EINTR, timeouts): it has a Temporary method. Whether a
+// caller may retry is the caller's business; a reader that has returned it has
+// failed.
+type temporaryError struct{}
+
+func (temporaryError) Error() string   { return "injected I/O fault (resource temporarily unavailable)" }
+func (temporaryError) Temporary() bool { return true }
+func (temporaryError) Timeout() bool   { return true }
+
+// ErrInjectedTemporary has Temporary() == true and Timeout() == true.
+var ErrInjectedTemporary error = temporaryError{}
+
 // FaultWriter fails the FailCall-th Write call (0-based; -1 = never), or
 // accepts FailByte bytes in total and then returns a short count with an
 // error (-1 = never). Sticky: after the first fault every call fails.
